@@ -7,6 +7,7 @@
    fastpasta/src/words/its.rs
    fastpasta/src/analyze/validators/rdh.rs
    fastpasta/src/analyze/validators/rdh_running.rs
+   fastpasta/src/config/check.rs
 -/
 import FastPasta.Spec.RsPrelude
 set_option linter.unusedVariables false
@@ -96,6 +97,15 @@ structure RdhCruRunningChecker where
 inductive SpecializeChecks where
   | ITS
   deriving DecidableEq, Repr, Inhabited
+inductive System where
+  | ITS
+  | ITS_Stave
+  deriving DecidableEq, Repr, Inhabited
+/-- abstract view of the configuration object (a trait object in the source): one field per method chain the translated code uses -/
+structure CfgAbs where
+  customEnabled : Bool    -- custom_checks_enabled()
+  target : (Option System)    -- check().unwrap().target()
+  rdhVersion : (Option Nat)    -- rdh_version()
 def Rdh0.from_buf (buf : Bytes) : (Rs.Res Rdh0) :=
   (Rs.Res.ok { f_header_id := (bAt buf 0), f_header_size := (bAt buf 1), f_fee_id := { f_0 := (leField buf 2 2) : FeeId }, f_priority_bit := (bAt buf 4), f_system_id := (bAt buf 5), f_reserved0 := (leField buf 6 2) : Rdh0 })
 
@@ -195,7 +205,7 @@ def RdhCruSanityValidator.with_specialization (specialization : SpecializeChecks
   (match specialization with | .ITS => { f_rdh0_validator := (Rdh0Validator.new (none) (Rdh0.HEADER_SIZE) (FEE_ID_SANITY_VALIDATOR) (0) ((some ITS_SYSTEM_ID))), f_rdh1_validator := RDH1_VALIDATOR, f_rdh2_validator := RDH2_VALIDATOR, f_rdh3_validator := RDH3_VALIDATOR : RdhCruSanityValidator })
 
 def RdhCruSanityValidator.specialize (self_ : RdhCruSanityValidator) (specialization : SpecializeChecks) : (Unit × RdhCruSanityValidator) :=
-  (match specialization with | .ITS => (let self__1 := { self_ with f_rdh0_validator.f_system_id := (some ITS_SYSTEM_ID) }; ((), self__1)))
+  (let self__1 := { self_ with f_rdh0_validator.f_system_id := (some ITS_SYSTEM_ID) }; ((), self__1))
 
 def RdhCru.payload_size (self_ : RdhCru) : Nat :=
   ((self_.f_memory_size + 2^16 - 64) % 2^16)
@@ -241,6 +251,15 @@ def RdhCruRunningChecker.new  : RdhCruRunningChecker :=
 
 def Rdh2.is_pht_trigger (self_ : Rdh2) : Bool :=
   (((self_.f_trigger_type >>> 4) &&& (Rs.mask 0 1)) == 1)
+
+def RdhCruSanityValidator.default  : RdhCruSanityValidator :=
+  (RdhCruSanityValidator.new)
+
+def RdhCruSanityValidator.with_custom_checks (custom_checks_opt : CfgAbs) : RdhCruSanityValidator :=
+  (if (custom_checks_opt.rdhVersion).isSome then { f_rdh0_validator := (Rdh0Validator.new ((some (Rs.unwrapD custom_checks_opt.rdhVersion))) (Rdh0.HEADER_SIZE) (FEE_ID_SANITY_VALIDATOR) (0) (none)), f_rdh1_validator := RDH1_VALIDATOR, f_rdh2_validator := RDH2_VALIDATOR, f_rdh3_validator := RDH3_VALIDATOR : RdhCruSanityValidator } else (RdhCruSanityValidator.default))
+
+def RdhCruSanityValidator.new_from_config (config : CfgAbs) : RdhCruSanityValidator :=
+  (if config.customEnabled then (let validator := (RdhCruSanityValidator.with_custom_checks (config)); (let validator_2 := (if (config.target).isSome then (let c_6 := (RdhCruSanityValidator.specialize (validator) (SpecializeChecks.ITS)); (let validator_3 := c_6.2; validator_3)) else validator); validator_2)) else (if (config.target).isSome then (match (Rs.unwrapD config.target) with | System.ITS | System.ITS_Stave => (RdhCruSanityValidator.with_specialization (SpecializeChecks.ITS))) else (RdhCruSanityValidator.default)))
 
 /-! kernel-checked: every literal mask was split into contiguous runs correctly -/
 example : (Rs.mask 0 12) = 4095 := by decide
